@@ -774,6 +774,9 @@ class Extractor:
         k = _const_range(it)
         if k is not None and k <= 4:
             return self.for_next(rest, {'n': nid, 'left': k, 'i': 0}, st)
+        if isinstance(it, ast.Call) and canon(it.func) in ('itertools.count', 'count') and not it.keywords and len(it.args) <= 2:
+            # an endless iterator: the loop is ``while True`` with a counter nobody else sees
+            return self.for_next(rest, {'n': nid, 'left': -2, 'i': 0}, st)
         st.labels.append('for[%s]' % canon(it))
         return self.for_next(rest, {'n': nid, 'left': -1, 'i': 0}, st)
 
@@ -785,6 +788,9 @@ class Extractor:
             self.assign(node.target, ast.Constant(value=aux['i']), st)
             return (self.push(below, 'for', node.body, {'n': aux['n'], 'left': aux['left'] - 1, 'i': aux['i'] + 1}), st)
         self.widen(node, st)
+        if aux['left'] == -2:
+            self.assign(node.target, ast.Name(id='<count L%d>' % node.lineno, ctx=ast.Load()), st)
+            return (self.push(below, 'for', node.body, aux), st)
         if self.decide():
             st.labels.append('next')
             self.assign(node.target, ast.Name(id='<item L%d>' % node.lineno, ctx=ast.Load()), st)
